@@ -3,6 +3,8 @@ from engine.anl.locks import find_cycles, lock_fields
 from engine.anl.origin import fmt, subterms
 from .common import S, co, call_label, never_err, render_path, is_call_term, const_strs, atomic_method, ATOMIC_WRITE_METHODS
 
+from engine.anl.casts import const_value as const_value_
+
 EXPLANATION = (
     "Static decision of the pairing / lock / flag discipline behind session teardown, over every path of the "
     "exported MIR of the current tree: (R09.1) no acquisition, direct or through any callee, of a lock class whose "
@@ -427,7 +429,41 @@ def r5b_giveup_goes_straight_to_close(ctx):
            "is never reached and nobody is released" % bad[0].site)
 
 
+def r10_constructor_siblings(ctx):
+    """sibling cross-check: Session::new_client and Session::new_server start a session in the same state — open, unbuffered,
+    packet counter 0, empty tables, stream ids from 1 — and differ only in the role fields (is_client, send_padding) and the
+    keep-alive monitor, which only the client has"""
+    from engine.anl.origin import strip_bb
+    vals = {}
+    for fn in ("new_client", "new_server"):
+        b = ctx.body("R09.10", S + fn)
+        if b is None:
+            return
+        o = ctx.origins(b)
+        for bi in sorted(b.reachable()):
+            for st in b.blocks[bi]["stmts"]:
+                if st["s"] == "assign" and st["rv"]["r"] == "aggregate" and str(st["rv"]["kind"].get("adt", "")).endswith("session::Session") and st["rv"]["kind"].get("fields"):
+                    vals[fn] = {n: o.of_operand(op) for n, op in zip(st["rv"]["kind"]["fields"], st["rv"]["ops"])}
+    if len(vals) != 2:
+        ctx.missing("R09.10", "Session{..} literal in new_client / new_server")
+        return
+    role = {"is_client", "send_padding", "heartbeat"}
+    fields = sorted(set(vals["new_client"]) | set(vals["new_server"]))
+    ctx.floor("R09.10", "fields of Session compared between the two constructors", len(fields), 15)
+    for f in fields:
+        if f in role:
+            continue
+        a, b_ = vals["new_client"].get(f), vals["new_server"].get(f)
+        import re as _re
+        same = _re.sub(r"@bb\d+", "", fmt(a)) == _re.sub(r"@bb\d+", "", fmt(b_)) if a is not None and b_ is not None else False
+        ctx.ob("R09.10", "constructors-agree:%s" % f, same, "", "both constructors initialise `%s` alike" % f if same else
+               "Session::new_client initialises `%s` with `%s`, Session::new_server with `%s`: the two roles start from different states in a field that is not a role field" % (f, fmt(a)[:50], fmt(b_)[:50]))
+    okrole = const_value_(vals["new_client"].get("is_client")) == 1 and const_value_(vals["new_server"].get("is_client")) == 0
+    ctx.ob("R09.10", "constructors:role-flag", okrole, "", "is_client is true in new_client and false in new_server" if okrole else "is_client is not the constant true / false in the two constructors")
+
+
 def run(ctx):
+    r10_constructor_siblings(ctx)
     from . import effects
     effects.check_property(ctx, "C09")    # R09.E: no operation on shared protocol state outside the reviewed table
     from . import C08
